@@ -32,8 +32,8 @@ theorem filterMap_eq_map_of_some {α β : Type} (g : α → Option β) (d : β) 
       simp only [List.filterMap_cons, hg, List.map_cons, Option.getD_some]
       rw [filterMap_eq_map_of_some g d l (fun x hx => hall x (List.mem_cons_of_mem _ hx))]
 
-theorem relVals_mem {reg : Reg} {memo : List (Str × Nat)} : ∀ {vs : List Val} {ls : List LVal},
-    RelVals reg memo vs ls → ∀ v ∈ vs, ∃ l ∈ ls, RelVal reg memo v l
+theorem relVals_mem {R : Val → LVal → Prop} : ∀ {vs : List Val} {ls : List LVal},
+    RelVals R vs ls → ∀ v ∈ vs, ∃ l ∈ ls, R v l
   | [], [], _, v, hv => by simp at hv
   | _ :: _, [], h, _, _ => by simp [RelVals] at h
   | [], _ :: _, h, _, _ => by simp [RelVals] at h
@@ -43,33 +43,92 @@ theorem relVals_mem {reg : Reg} {memo : List (Str × Nat)} : ∀ {vs : List Val}
     · obtain ⟨l, hl, hr⟩ := relVals_mem h.2 v e
       exact ⟨l, List.mem_cons_of_mem _ hl, hr⟩
 
-theorem relVals_tokens {reg : Reg} {memo : List (Str × Nat)} (hnd : (memo.map Prod.snd).Nodup)
-    (recL recV : Nat → Desc) : ∀ {vs : List Val} {ls : List LVal}, RelVals reg memo vs ls →
-    vs.length = ls.length ∧
-    (ls.map (tokLWith memo recL)).flatten = (vs.map (tokVWith reg recV)).flatten
-  | [], [], _ => ⟨rfl, rfl⟩
-  | _ :: _, [], h => by simp [RelVals] at h
-  | [], _ :: _, h => by simp [RelVals] at h
-  | v :: vs, l :: ls, h => by
-    obtain ⟨ih1, ih2⟩ := relVals_tokens hnd recL recV h.2
+theorem relVals_flatten {R : Val → LVal → Prop} {tL : LVal → Desc} {tV : Val → Desc} :
+    ∀ {vs : List Val} {ls : List LVal}, RelVals R vs ls → (∀ v l, l ∈ ls → R v l → tL l = tV v) →
+    vs.length = ls.length ∧ (ls.map tL).flatten = (vs.map tV).flatten
+  | [], [], _, _ => ⟨rfl, rfl⟩
+  | _ :: _, [], h, _ => by simp [RelVals] at h
+  | [], _ :: _, h, _ => by simp [RelVals] at h
+  | v :: vs, l :: ls, h, ht => by
+    obtain ⟨ih1, ih2⟩ := relVals_flatten h.2 (fun v' l' hl' => ht v' l' (List.mem_cons_of_mem _ hl'))
     refine ⟨by simp [ih1], ?_⟩
-    simp only [List.map_cons, List.flatten_cons, ih2]
-    congr 1
-    have hr := h.1
-    cases v <;> cases l <;> simp only [RelVal] at hr
-    · subst hr; rfl
-    · subst hr; rfl
-    · obtain ⟨m, h1, h2⟩ := hr
-      simp only [tokVWith, tokLWith, h1, nameOfIdx_of_mem hnd (lookupMemo_some_mem h2)]
+    simp only [List.map_cons, List.flatten_cons, ih2, ht v l List.mem_cons_self h.1]
 
-section
-variable {h : Heap} {main : Nat}
-
-theorem descObj_unfold (reg : Reg) (f o : Nat) (ob : Obj) (hob : h[o]? = some ob) :
+theorem descObj_unfold {h : Heap} (reg : Reg) (f o : Nat) (ob : Obj) (hob : h[o]? = some ob) :
     descObj h reg (f + 1) o =
       .opn ob.cls ob.fields.length :: ((ob.fields.map (·.val)).map (tokVWith reg (descObj h reg f))).flatten := by
   simp only [descObj, hob, List.map_map]
   rfl
+
+/-- the description of a restored value equals the description of the saved one: an inlined cell `j`
+is described completely with any fuel `> j` (its own inlined cells have smaller indices) -/
+theorem relV_tokens {h : Heap} {reg : Reg} {heap : List LObj} {memo : List (Str × Nat)}
+    (hnd : (memo.map Prod.snd).Nodup) : ∀ (d : Nat) (v : Val) (l : LVal) (fL : Nat),
+    RelV h reg heap memo d v l → (∀ j, l = .own j → j < fL) →
+    tokLWith memo (descL heap memo fL) l = tokVWith reg (descObj h reg d) v
+  | d, .lit _, .lit _, _, hr, _ => by simp only [RelV] at hr; subst hr; rfl
+  | d, .str _, .str _, _, hr, _ => by simp only [RelV] at hr; subst hr; rfl
+  | d, .ref _, .ref _, _, hr, _ => by
+    simp only [RelV] at hr
+    obtain ⟨m, h1, h2⟩ := hr
+    simp only [tokVWith, tokLWith, h1, nameOfIdx_of_mem hnd (lookupMemo_some_mem h2)]
+  | 0, .own _, .own _, _, hr, _ => by simp [RelV] at hr
+  | d + 1, .own p, .own j, fL, hr, hj => by
+    simp only [RelV] at hr
+    obtain ⟨_, ob, lo, a1, a2, a3, a4, a5⟩ := hr
+    have hjl := hj j rfl
+    obtain ⟨fL', rfl⟩ : ∃ fL', fL = fL' + 1 := ⟨fL - 1, by omega⟩
+    simp only [tokVWith, tokLWith]
+    rw [descObj_unfold reg d p ob a1]
+    simp only [descL, a2, a3]
+    obtain ⟨hlen, htok⟩ := relVals_flatten (tL := tokLWith memo (descL heap memo fL'))
+      (tV := tokVWith reg (descObj h reg d)) a4
+      (fun v l hl hr' => relV_tokens hnd d v l fL' hr' (fun j' hj' => by
+        have := a5 j' (hj' ▸ hl); omega))
+    rw [htok]
+    simp only [List.length_map] at hlen
+    rw [hlen]
+  | _, .lit _, .str _, _, hr, _ | _, .lit _, .ref _, _, hr, _ | _, .lit _, .own _, _, hr, _ | _, .lit _, .pending, _, hr, _
+  | _, .str _, .lit _, _, hr, _ | _, .str _, .ref _, _, hr, _ | _, .str _, .own _, _, hr, _ | _, .str _, .pending, _, hr, _
+  | _, .ref _, .lit _, _, hr, _ | _, .ref _, .str _, _, hr, _ | _, .ref _, .own _, _, hr, _ | _, .ref _, .pending, _, hr, _
+  | _, .own _, .lit _, _, hr, _ | _, .own _, .str _, _, hr, _ | _, .own _, .ref _, _, hr, _ | _, .own _, .pending, _, hr, _ => by
+    simp [RelV] at hr
+
+/-- an inlined cell related to a saved object exists in the heap -/
+theorem relV_own_lt {h : Heap} {reg : Reg} {heap : List LObj} {memo : List (Str × Nat)} {d : Nat} {v : Val} {j : Nat}
+    (hr : RelV h reg heap memo d v (.own j)) : j < heap.length := by
+  cases d with
+  | zero => cases v <;> simp [RelV] at hr
+  | succ d =>
+    cases v <;> simp only [RelV] at hr
+    obtain ⟨_, ob, lo, _, a2, _⟩ := hr
+    obtain ⟨hj, _⟩ := List.getElem?_eq_some_iff.mp a2; exact hj
+
+/-- whatever is referred to by name from the (inlined) tree below a restored object has been restored -/
+theorem refInTree_loaded {h : Heap} {reg : Reg} {heap : List LObj} {memo : List (Str × Nat)} :
+    ∀ (d : Nat) (q t : Nat), RefInTree h (d + 1) q t → ∀ (ob : Obj) (lf : List LVal), h[q]? = some ob →
+      RelVals (RelV h reg heap memo d) (ob.fields.map (·.val)) lf →
+      ∃ m j, lookupName reg t = some m ∧ lookupMemo memo m = some j
+  | d, q, t, hrt, ob, lf, hob, hrel => by
+    simp only [RefInTree] at hrt
+    obtain ⟨ob', hob', f, hf, hcase⟩ := hrt
+    rw [hob] at hob'; cases hob'
+    obtain ⟨l, _hl, hr⟩ := relVals_mem hrel f.val (List.mem_map.mpr ⟨f, hf, rfl⟩)
+    rcases hcase with hv | ⟨p, hv, hsub⟩
+    · rw [hv] at hr
+      cases l <;> simp only [RelV] at hr
+      obtain ⟨m, hm1, hm2⟩ := hr
+      exact ⟨m, _, hm1, hm2⟩
+    · rw [hv] at hr
+      cases d with
+      | zero => simp [RefInTree] at hsub
+      | succ d =>
+        cases l <;> simp only [RelV] at hr
+        obtain ⟨_, obp, lo, a1, _, _, a4, _⟩ := hr
+        exact refInTree_loaded d p t hsub obp lo.fields a1 a4
+
+section
+variable {h : Heap} {main : Nat}
 
 /-- From the loader invariant to the Spec: if every memo entry is `Good`, the memo table is injective
 and `main` has been restored, then every registered name has been restored (by reachability along the
@@ -86,7 +145,7 @@ theorem spec_of_loaded {reg : Reg} (hk : RegOk main reg) (hreach : Reach h main 
     | _ k ih =>
       intro pre e post hlen hsplit
       have he : e ∈ reg := by rw [hsplit]; simp
-      rcases hreach pre e post hsplit with hm | ⟨q, hq, ob, hob, f, hf, hfv⟩
+      rcases hreach pre e post hsplit with hm | ⟨q, hq, hrt⟩
       · have : e.2 = mainName := hk.name_unique (o := e.1) (by rw [show (e.1, e.2) = e from rfl]; exact he) (by rw [hm]; exact hmain)
         rw [this]; exact ⟨i, hmi⟩
       · obtain ⟨qe, hqe, hq1⟩ := List.mem_map.mp hq
@@ -99,12 +158,7 @@ theorem spec_of_loaded {reg : Reg} (hk : RegOk main reg) (hreach : Reach h main 
           rw [← hq1]; rw [hsplit']; simp
         have : o' = q := hk.obj_unique a1 hqin
         subst this
-        rw [hob] at a2
-        cases a2
-        obtain ⟨l, _hl, hrel⟩ := relVals_mem a5 f.val (List.mem_map.mpr ⟨f, hf, rfl⟩)
-        rw [hfv] at hrel
-        cases l <;> simp only [RelVal] at hrel
-        obtain ⟨m, hm1, hm2⟩ := hrel
+        obtain ⟨m, j, hm1, hm2⟩ := refInTree_loaded h.length o' e.1 hrt ob' lo.fields a2 a5
         have hm' : m = e.2 := hk.name_unique (lookupName_some_mem hm1) (by rw [show (e.1, e.2) = e from rfl]; exact he)
         exact ⟨_, hm' ▸ hm2⟩
   have hall' : ∀ e ∈ reg, ∃ j, lookupMemo ls.memo e.2 = some j := by
@@ -146,21 +200,22 @@ theorem spec_of_loaded {reg : Reg} (hk : RegOk main reg) (hreach : Reach h main 
     subst this
     simp only [hj]
     rw [descObj_unfold reg h.length e.1 ob a2]
-    obtain ⟨hlen, htok⟩ := relVals_tokens (reg := reg) hvnd
-      (descL ls.heap ls.memo ls.heap.length) (descObj h reg h.length) a5
+    obtain ⟨hlen, htok⟩ := relVals_flatten (tL := tokLWith ls.memo (descL ls.heap ls.memo ls.heap.length))
+      (tV := tokVWith reg (descObj h reg h.length)) a5
+      (fun v l _ hr => relV_tokens hvnd h.length v l ls.heap.length hr (fun j hj => relV_own_lt (hj ▸ hr)))
     simp only [descL, a3, a4]
     rw [htok]
     simp only [List.length_map] at hlen
     rw [hlen]
 
 
-/-- **Round trip of an acyclic graph of plain classes** (sharing allowed). -/
-theorem roundtrip_acyclic_core (rank : Nat → Nat) (hno : NoOwn h)
+/-- **Round trip of an acyclic graph of plain classes** (sharing allowed, inlined records). -/
+theorem roundtrip_acyclic_core (rank : Nat → Nat)
     (hearly : ∀ ob ∈ h, ∀ f ∈ ob.fields, f.phase = .early)
-    (hacyc : ∀ o ob, h[o]? = some ob → ∀ f ∈ ob.fields, ∀ p, f.val = .ref p → rank p < rank o)
+    (hacyc : ∀ o ob, h[o]? = some ob → ∀ f ∈ ob.fields, ∀ p, f.val.target = some p → rank p < rank o)
     {st : SState} {T : Table} (hs : serialize h main = .ok (st, T)) (fuel : Nat) (hfuel : rank main + 1 < fuel) :
     ∃ ls i, unserialize T fuel = (ls, .ok (.ref i)) ∧ specRoundTrip h st.reg ls = true := by
-  obtain ⟨hk, hreach, hkeys, hent⟩ := serialize_spec h main hno hs
+  obtain ⟨hk, hreach, hkeys, hent⟩ := serialize_spec h main hs
   have hTnd : (T.map Prod.fst).Nodup := by rw [hkeys]; exact hk.namesNodup
   have C : Ctx h main st.reg T rank := {
     regOk := hk
@@ -168,13 +223,12 @@ theorem roundtrip_acyclic_core (rank : Nat → Nat) (hno : NoOwn h)
       obtain ⟨ob, h1, h2, h3⟩ := hent o n hon
       exact ⟨ob, h1, lookupRec_of_mem hTnd h2, h3⟩
     early := hearly
-    noOwn := hno
     acyc := hacyc }
   have hmain : (main, mainName) ∈ st.reg := lookupName_some_mem hk.mainIn
   have inv0 : LInv h st.reg initL :=
     ⟨rfl, rfl, by simp [initL], by simp [initL], by intro w hw; simp [initL] at hw, by intro e he; simp [initL] at he⟩
   obtain ⟨ls, i, hload, inv, _ext, hmi⟩ :=
-    load_named C (rank main + 1) main mainName (Nat.lt_succ_self _) hmain fuel hfuel initL inv0
+    load_named C fuel fuel (Nat.le_refl _) main mainName hmain hfuel initL inv0
       (by intro w hw; simp [initL] at hw)
   exact ⟨ls, i, hload, spec_of_loaded hk hreach ls inv.good inv.valsNodup hmi⟩
 
